@@ -28,7 +28,7 @@ func init() {
 	register(&Prop{
 		ID:    "C05",
 		Level: "exploration",
-		Rule: "feeds: every leaf of the complete decision trees of the small wordlist recipes shared with C04; seed-generated (list, Length 1-12, scheme incl. unknown scheme strings, constant / preset / constructed / user-written separators incl. empty and multi-byte ones) driven by scripts forcing last word / last position / all heads / all tails and by OS randomness; lists containing the empty string as a separately labelled class. Every password's Tokens/String/Atoms/Separators are checked against the kept words (reference normalisation), the scheme's capitalisation positions and the separators the separator function actually returned (recorded by a wrapper). evaluations = passwords checked; distinct_nontrivial = distinct recipes with Length>=2",
+		Rule:  "feeds: every leaf of the complete decision trees of the small wordlist recipes shared with C04; seed-generated (list, Length 1-12, scheme incl. unknown scheme strings, constant / preset / constructed / user-written separators incl. empty and multi-byte ones) driven by scripts forcing last word / last position / all heads / all tails and by OS randomness; lists containing the empty string as a separately labelled class. Every password's Tokens/String/Atoms/Separators are checked against the kept words (reference normalisation), the scheme's capitalisation positions and the separators the separator function actually returned (recorded by a wrapper). evaluations = passwords checked; distinct_nontrivial = distinct recipes with Length>=2",
 		Assumptions: []string{
 			"the expected separator of gap g is what the separator function returned on one of its calls during that Generate, in call order (the extra call Entropy() makes may come first or last)",
 			"title-casing is strings.Title, as the documentation of the schemes implies",
